@@ -158,7 +158,18 @@ def t_ws(v, ival):
     return ("W" + ".".join(str(ival(v[k])) for k in ("closed_by_client", "close_code", "close_reason", "timestamp_end")) + "/" +
             ";".join(t_wsmsg(m, ival) for m in v["messages"]))
 def t_meta(v, ival): return "M" + ".".join("%d=%d" % (ival(k), ival(x)) for k, x in v.items())
-def t_comp(key, v, ival):
+def t_tmsgs(v, ival): return "T" + ";".join("%d.%s.%d" % (fc, _hx(c), ival(ts)) for fc, c, ts in v)
+def t_dns(v, ival):
+    if v is None: return "D~"
+    return ("D" + ".".join(str(ival(x)) for k, x in v.items() if k != "questions") + "/" +
+            ";".join(".".join(str(ival(q[k])) for k in ("name", "type", "class_")) for q in v["questions"]))
+DNS_ATOM = {k: i for i, k in enumerate(["id", "query", "op_code", "authoritative_answer", "truncation", "recursion_desired",
+                                        "recursion_available", "reserved", "response_code", "answers", "authorities", "additionals", "timestamp"])}
+
+
+def t_comp(key, v, ival, ftype="http"):
+    if key == "messages": return t_tmsgs(v, ival)
+    if ftype == "dns" and key in ("request", "response"): return t_dns(v, ival)
     if key in ("client_conn", "server_conn"): return "C" + ".".join(str(ival(x)) for x in v.values())
     if key == "error": return "E~" if v is None else "E%d.%d" % (ival(v["msg"]), ival(v["timestamp"]))
     if key == "intercepted": return "B%d" % (1 if v else 0)
@@ -200,6 +211,19 @@ def typed_edit(name, f, a, ival):
     if name == "resp_set":
         r = [None, tutils.tresp(), tutils.tresp(status_code=404)][a]
         return "resprep " + ("R~" if r is None else "R" + t_msg(r.get_state(), ival))
+    if name == "msg_append":
+        if not len(f.messages) < 5: return None
+        return "msgs append %d.%s.%d" % (a % 2, _hx(b"x%d" % a), ival(946681204.9))
+    if name == "msg_edit": return "msgs setc 0 " + _hx([b"hello", b"e1", b""][a])
+    if name == "msg_pop": return "msgs pop"
+    if name == "msg_replace": return "msgsrep " + t_tmsgs([[], [(True, b"hello", 946681204.2)], [(False, b"q", 1.0)]][a], ival)
+    if name == "dreq_id": return "dreq atom %d %d" % (DNS_ATOM["id"], ival([42, 5, 6][a]))
+    if name == "dreq_q": return "dreq qname 0 %d" % ival(["dns.google", "a.example", "b.example"][a])
+    if name == "dreq_replace": return "dreqrep " + t_dns(tutils.tdnsreq(id=[42, 7, 8][a]).get_state(), ival)
+    if name == "dresp_set":
+        r = [None, tutils.tdnsresp(), tutils.tdnsresp(id=9)][a]
+        return "dresprep " + t_dns(None if r is None else r.get_state(), ival)
+    if name == "dresp_code": return "dresp atom %d %d" % (DNS_ATOM["response_code"], ival([0, 3, 2][a]))
     w = getattr(f, "websocket", None)
     if name == "ws_append":
         if not (w and len(w.messages) < 5): return None
@@ -342,14 +366,15 @@ class Check(PropertyCheck):
                 out.append([iid(st["id"]), 1 if f.live else 0, comps, bk, 1 if f.modified() else 0])
             return out
 
-        typed = case["type"] in ("http", "ws")
+        typed = True            # every flow type has a typed (predicting) layer
+        ft = case["type"]
 
         def observe_t():
             out = []
             for f in flows:
                 st = f.get_state(); b = st["backup"]
-                comps = "+".join(t_comp(k, st[k], ival) for k in keys)
-                bk = "-" if b is None else "%d+%s" % (iid(b["id"]), "+".join(t_comp(k, b[k], ival) for k in keys))
+                comps = "+".join(t_comp(k, st[k], ival, ft) for k in keys)
+                bk = "-" if b is None else "%d+%s" % (iid(b["id"]), "+".join(t_comp(k, b[k], ival, ft) for k in keys))
                 out.append("%d:%d:%s:%s:%d" % (iid(st["id"]), 1 if f.live else 0, comps, bk, 1 if f.modified() else 0))
             return "|".join(out)
 
@@ -360,7 +385,7 @@ class Check(PropertyCheck):
         tlines, tsteps = [], []
         if typed:
             st0 = flows[0].get_state()
-            tlines = ["treset", "tnew %d %d %s" % (s0[0][0], s0[0][1], "+".join(t_comp(k, st0[k], ival) for k in keys))]
+            tlines = ["treset", "tnew %d %d %s" % (s0[0][0], s0[0][1], "+".join(t_comp(k, st0[k], ival, ft) for k in keys))]
             tsteps = [observe_t()]
         for name, h, arg in case["ops"]:
             if not (0 <= h < len(flows)): continue
@@ -459,10 +484,8 @@ class Check(PropertyCheck):
                         for i, lv, c, b, m in state)
 
     def model_obs(self, case, replies):
-        if case["type"] in ("http", "ws"):
-            n = len(replies) // 2           # generic lines, then the same number of typed lines
-            return {"g": replies[1:n], "t": replies[n + 1:]}
-        return {"g": replies[1:], "t": []}
+        n = len(replies) // 2           # generic lines, then the same number of typed lines
+        return {"g": replies[1:n], "t": replies[n + 1:]}
 
     def impl_view(self, case, obs):
         return {"g": [self._render(s) for s in obs.get("steps", [])], "t": obs.get("tsteps", [])}
